@@ -245,7 +245,12 @@ func ruleERRDISC(p *Program, rep *Report, pkgFilter string, ioOnly bool) {
 		key := caller + " -> " + d.callee
 		var hit *allowEntry
 		for _, a := range allow {
-			if a.Caller == caller && a.Callee == d.callee {
+			if a.Callee != d.callee {
+				continue
+			}
+			// the listed caller itself, or a helper that is only ever reached below it (the drop site moved
+			// into an extracted function: same edge, same reason)
+			if a.Caller == caller || onlyCalledBelow(p, d.caller, a.Caller, map[*ssa.Function]bool{}) {
 				hit = a
 			}
 		}
@@ -373,4 +378,32 @@ func structuralException(p *Program, d errSite) string {
 		}
 	}
 	return ""
+}
+
+// onlyCalledBelow: every way into fn leads through the function named root (fn is root, a closure of such a
+// function, or an unexported, non-escaping function all of whose static call sites are in such functions).
+func onlyCalledBelow(p *Program, fn *ssa.Function, root string, seen map[*ssa.Function]bool) bool {
+	if fn == nil {
+		return false
+	}
+	if funcName(fn) == root {
+		return true
+	}
+	if seen[fn] {
+		return true
+	}
+	seen[fn] = true
+	if fn.Parent() != nil {
+		return onlyCalledBelow(p, fn.Parent(), root, seen)
+	}
+	ci := p.callIndex()
+	if exportedAPI(fn) || ci.escapes[fn] || len(ci.sites[fn]) == 0 {
+		return false
+	}
+	for _, site := range ci.sites[fn] {
+		if !onlyCalledBelow(p, site.Parent(), root, seen) {
+			return false
+		}
+	}
+	return true
 }
